@@ -351,7 +351,7 @@ func (ctrler *RigoApp) deliverTxSync(req abcitypes.RequestDeliverTx) abcitypes.R
 		xerr = xerrors.ErrDeliverTx.Wrap(xerr)
 		ctrler.logger.Error("deliverTxSync", "error", xerr)
 
-		if txctx.Tx != nil {
+		if txctx != nil && txctx.Tx != nil {
 			// add event
 			txctx.Events = append(txctx.Events, abcitypes.Event{
 				Type: "tx",
@@ -363,10 +363,15 @@ func (ctrler *RigoApp) deliverTxSync(req abcitypes.RequestDeliverTx) abcitypes.R
 			})
 		}
 
+		// NewTrxContext returns a nil context together with the error
+		var events []abcitypes.Event
+		if txctx != nil {
+			events = txctx.Events
+		}
 		return abcitypes.ResponseDeliverTx{
 			Code:   xerr.Code(),
 			Log:    xerr.Error(),
-			Events: txctx.Events,
+			Events: events,
 		}
 	}
 	xerr = ctrler.txExecutor.ExecuteSync(txctx)
